@@ -33,6 +33,10 @@ def scenario_of(case):
     items = [(t, FRAMES[k]) for t, k in arrivals if t < horizon]
     if case.get("reply_at") is not None:
         items.append((case["reply_at"] * GRID + t_reply, B(wire.CLOSE, struct.pack("!H", 1000))))
+    if case.get("server_close_at") is not None:
+        # the SERVER starts the closing handshake and then does not drop the connection (until the horizon): the
+        # client's echo is "a Close sent by the client" whose completion is the server's to deliver
+        items.append((case["server_close_at"] * GRID + t_reply, B(wire.CLOSE, struct.pack("!H", 1001) + b"srv")))
     items = sorted((t, d) for t, d in items if t < horizon)
     for t, d in items:
         script.append(["stream", [["bytes", d]], "whole", t - now])
@@ -174,6 +178,27 @@ def judge(case, tr):
             if E < horizon_rel:
                 return ("forced_without_timeout", "close_timeout=%r but the connection was dropped at %s, before the "
                         "server's EOF at %s" % (c, E, horizon_rel)), labels
+    elif s_close is not None and server_closed_first and not app_closed:
+        # the echo of the server's Close: completed when the server drops the connection (the EOF at the horizon)
+        horizon_rel = case["horizon"] * GRID
+        if unresp:
+            pass
+        elif c:
+            if E < s_close + c and E < horizon_rel:
+                return ("forced_too_early", "Close echoed at %s, close_timeout=%s, disconnected already at %s" % (
+                    s_close, c, E)), labels
+            if E > s_close + c + p:
+                return ("forced_too_late", "Close echoed at %s, close_timeout=%s, poll=%s, the server never dropped the "
+                        "connection: still connected at %s" % (s_close, c, p, E)), labels
+            if E < horizon_rel:
+                if graceful is not False:
+                    return ("forced_graceful", "forced disconnect reported graceful"), labels
+                labels.add("close_timeout_fired")
+                labels.add("close_timeout_fired_after_echo")
+        else:
+            if E < horizon_rel:
+                return ("forced_without_timeout", "close_timeout=%r but the connection was dropped at %s, before the "
+                        "server's EOF at %s" % (c, E, horizon_rel)), labels
     return None, labels
 
 
@@ -219,7 +244,10 @@ class C15(Prop):
             if close_at is not None:
                 while_closing = draw(st.lists(st.tuples(st.integers(1, 120), st.sampled_from(
                     ["close", "close", "close_default", "send", "ping"])).map(list), max_size=4))
-            return {"p": p, "r": r, "t": t, "c": c, "horizon": horizon, "arrivals": arrivals,
+            server_close_at = None
+            if close_at is None:
+                server_close_at = draw(st.one_of(st.none(), st.integers(0, horizon), near))
+            return {"p": p, "r": r, "t": t, "c": c, "horizon": horizon, "arrivals": arrivals, "server_close_at": server_close_at,
                     "close_at": close_at, "reply_at": reply_at, "t_reply": draw(st.sampled_from([0, 0, 3, 10])),
                     "while_closing": while_closing, "auto_pong": draw(st.sampled_from([None, True, False])), "prelude": draw(gen.prelude(6)), "companion": draw(gen.companion(6)), "noise_calls": draw(gen.noise_calls())}
         return case()
@@ -231,13 +259,15 @@ class C15(Prop):
                 for r in sorted(set(RATES)):
                     for t in (None, 0, 1.0, 2.5, 10.0):
                         for c in CTIMEOUTS:
-                            for kind in range(4):
+                            for kind in range(5):
                                 arr = [] if kind != 1 else [[k * 8, "pong"] for k in range(1, 12)]
                                 # kind 3: close(), then close() again every second while the handshake is pending
                                 again = [[8 * k, "close"] for k in range(1, 12)] if kind == 3 else []
                                 for ap in ((None, False) if kind == 1 else (None,)):
                                     yield {"p": p, "r": r, "t": t, "c": c, "horizon": 120, "arrivals": arr,
-                                           "close_at": 24 if kind >= 2 else None, "reply_at": None, "t_reply": 3,
+                                           "close_at": 24 if kind in (2, 3) else None, "reply_at": None, "t_reply": 3,
+                                           # kind 4: the server closes, the client echoes, the server stays connected
+                                           "server_close_at": 24 if kind == 4 else None,
                                            "while_closing": again, "auto_pong": ap}
         return [Enumeration("parameter_grid", grid, exhaustive=True)]
 
